@@ -752,7 +752,7 @@ func init() {
 
 	register(&Rule{
 		ID: "C05.R4", Props: []string{"C05", "C16"}, Min: 3,
-		Doc: "every DOM that enters evaluation has been prepared: each call that hands a freshly parsed DOM (or, outside the evaluator itself, any DOM) to evaluate/evalTemplate is dominated by the shorthand resolution (resolveComponentTags or preProcessNodes) and by the v-once id stamping (assignSeenAttrs) of that same DOM",
+		Doc: "every DOM that enters evaluation has been prepared: each call that hands a freshly parsed DOM (or, outside the evaluator itself, any DOM) to evaluate/evalTemplate — or to extractSlotsFromDOM, whose result the layouts evaluate inside their <slot> elements — is dominated by the shorthand resolution (resolveComponentTags or preProcessNodes) and by the v-once id stamping (assignSeenAttrs) of that same DOM",
 		Run: func(p *Prog, c *Ctx) {
 			cone := p.evaluatorCone()
 			n := 0
@@ -760,10 +760,15 @@ func init() {
 				for _, site := range callsIn(fn) {
 					cc := site.Common()
 					nm := calleeName(cc)
-					if nm != "(*vuego.Vue).evaluate" && nm != "(*vuego.Vue).evalTemplate" {
-						continue
+					argIdx, isSink := map[string]int{"(*vuego.Vue).evaluate": 2, "(*vuego.Vue).evalTemplate": 2, "vuego.extractSlotsFromDOM": 0}[nm]
+					if !isSink || argIdx >= len(cc.Args) {
+						continue // extractSlotsFromDOM: the nodes it collects are evaluated later, inside the layouts' <slot> elements
 					}
-					nodes := cc.Args[2]
+					nodes := cc.Args[argIdx]
+					// a tail of a prepared list is prepared
+					if sl, ok := nodes.(*ssa.Slice); ok {
+						nodes = sl.X
+					}
 					parsed := false
 					for _, o := range p.origins(nodes, OriginOpts{}) {
 						if ex, ok := o.(*ssa.Extract); ok {
@@ -779,7 +784,7 @@ func init() {
 						continue // inside the evaluator: the DOM was prepared when it entered
 					}
 					n++
-					key := fmt.Sprintf("%s → %s#%d", shortName(fn), strings.TrimPrefix(nm, "(*vuego.Vue)."), n)
+					key := fmt.Sprintf("%s → %s#%d", shortName(fn), strings.TrimPrefix(strings.TrimPrefix(nm, "(*vuego.Vue)."), "vuego."), n)
 					same := func(v ssa.Value) bool { return valueIdentity(v) == valueIdentity(nodes) || v == nodes }
 					resolved, stamped := false, false
 					for _, s2 := range callsIn(fn) {
